@@ -396,6 +396,13 @@ def run(facts, rep, tier):
     rule_r5(facts, rep)
     rep.rule("C06-R6", "Wiki links keep their kind in both printers (paragraph text and table cells): each has a branch per wiki kind that writes `[[..]]` itself.")
     rule_r6(facts, rep)
+    rep.rule("C06-R7", "= C05-R3: which links are references (and so get a title, an extension, a path relative to the note) is decided in one place, model::is_ref_url, a negated disjunction "
+             "of case-folded scheme prefixes: a note key taken for an external url is not refreshed and can be written as an autolink `<key>`, which is no link any more.")
+    c05.rule_r3(facts, rep, "C06-R7")
+    rep.rule("C06-R3c", "The title is all the words of the heading: Line::to_plain_text folds every inline through GraphInline::plain_text, a variant table in which every text-bearing variant "
+             "(links included) contributes its payload's text.")
+    from . import plaintext
+    plaintext.rule_plain_text(facts, rep, "C06-R3c")
 
 
 class _MultiOnly:
